@@ -19,11 +19,12 @@ import (
 
 type spyDec struct {
 	decor.WC
-	bar int
+	bar  int
+	anon bool
 }
 
-func newSpy(bar int) decor.Decorator {
-	d := &spyDec{bar: bar}
+func newSpy(bar int, anon bool) decor.Decorator {
+	d := &spyDec{bar: bar, anon: anon}
 	d.WC = (&decor.WC{}).Init()
 	return d
 }
@@ -45,7 +46,11 @@ func SpyMarker(bar int, cur, tot int64, completed, aborted bool) string {
 func (d *spyDec) Decor(s decor.Statistics) (string, int) {
 	simrt.Log(simrt.Entry{Kind: EvSpy, ID: d.bar, A: s.Current, B: s.Total, V: SpyRec{Bar: d.bar, ID: s.ID, Current: s.Current, Total: s.Total,
 		Refill: s.Refill, Completed: s.Completed, Aborted: s.Aborted, Avail: s.AvailableWidth, ReqWidth: s.RequestedWidth, T: simrt.PeekNS()}})
-	return d.Format(SpyMarker(d.bar, s.Current, s.Total, s.Completed, s.Aborted))
+	shown := d.bar
+	if d.anon {
+		shown = 0
+	}
+	return d.Format(SpyMarker(shown, s.Current, s.Total, s.Completed, s.Aborted))
 }
 
 // ---------------------------------------------------------------------------
